@@ -24,17 +24,57 @@ type tokItem struct {
 }
 
 type tokTemplate struct {
-	kind  string      // sgr | osc8 | other
+	kind  string      // sgr | osc8 | mode | other
 	lists [][]tokItem // sgr: parameter lists
+	mode  tokItem     // mode: which mode
+	set   int         // mode: 1 set, 0 reset, +2 push (count up), -2 pop (count down)
 	text  string
 	nargs int
 }
+
+// pseudo mode numbers of the ghost mode table for modes that are not DEC private modes
+const (
+	modeKeypad  = -1 // keypad application mode (ESC = / ESC >)
+	modeKittyKB = -2 // depth of the kitty keyboard flag stack pushed by this program
+)
 
 func parseTemplate(s string) *tokTemplate {
 	t := &tokTemplate{kind: "other", text: s}
 	if strings.HasPrefix(s, "\x1b]8;") && strings.Count(s, "%s") == 2 && strings.HasSuffix(s, "\x1b\\") {
 		t.kind = "osc8"
 		t.nargs = 2
+		return t
+	}
+	// terminal modes: DEC private mode set/reset (CSI ? Pm h / l, one mode per sequence), keypad application /
+	// numeric mode (ESC = / ESC >), kitty keyboard push / pop (CSI > flags u / CSI < u)
+	switch {
+	case s == "\x1b=":
+		t.kind, t.mode, t.set = "mode", tokItem{lit: modeKeypad, hole: -1}, 1
+		return t
+	case s == "\x1b>":
+		t.kind, t.mode, t.set = "mode", tokItem{lit: modeKeypad, hole: -1}, 0
+		return t
+	case s == "\x1b[>%du":
+		t.kind, t.mode, t.set, t.nargs = "mode", tokItem{lit: modeKittyKB, hole: -1}, +2, 1
+		return t
+	case s == "\x1b[<u":
+		t.kind, t.mode, t.set = "mode", tokItem{lit: modeKittyKB, hole: -1}, -2
+		return t
+	case strings.HasPrefix(s, "\x1b[?") && (strings.HasSuffix(s, "h") || strings.HasSuffix(s, "l")):
+		body := s[3 : len(s)-1]
+		set := 0
+		if strings.HasSuffix(s, "h") {
+			set = 1
+		}
+		if body == "%d" {
+			t.kind, t.mode, t.set, t.nargs = "mode", tokItem{hole: 0}, set, 1
+			return t
+		}
+		var n int64
+		if _, err := fmt.Sscanf(body, "%d", &n); err == nil && fmt.Sprint(n) == body {
+			t.kind, t.mode, t.set = "mode", tokItem{lit: n, hole: -1}, set
+			return t
+		}
 		return t
 	}
 	if !strings.HasPrefix(s, "\x1b[") || !strings.HasSuffix(s, "m") {
@@ -81,6 +121,12 @@ func parseTemplate(s string) *tokTemplate {
 type Token struct {
 	tmpl *tokTemplate
 	args []Val
+}
+
+// modesKey: the ghost table of terminal modes (mode number -> 0/1, or a depth for stack-like modes) that a
+// standards-conforming terminal has after the tokens emitted so far.
+func (ex *Exec) modesKey() *HeapKey {
+	return ex.regKey("X:modes", smt.ArraySort(smt.Int, smt.Int), nil)
 }
 
 func (ex *Exec) penKey() *HeapKey {
@@ -270,6 +316,28 @@ func (ex *Exec) applyToken(st *State, tk *Token) {
 	ex.tokenLog = append(ex.tokenLog, tk.tmpl.text)
 	switch tk.tmpl.kind {
 	case "other":
+		return
+	case "mode":
+		mk := ex.modesKey()
+		tbl := ex.heapGet(st, mk)
+		var m *smt.Term
+		if tk.tmpl.mode.hole >= 0 {
+			if tk.tmpl.mode.hole >= len(tk.args) || tk.args[tk.tmpl.mode.hole].Tm == nil {
+				ex.havocKey(st, mk)
+				return
+			}
+			m = tk.args[tk.tmpl.mode.hole].Tm
+		} else {
+			m = c.IntLit(tk.tmpl.mode.lit)
+		}
+		switch tk.tmpl.set {
+		case 0, 1:
+			st.heap[mk.Name] = c.Store(tbl, m, c.IntLit(int64(tk.tmpl.set)))
+		case 2:
+			st.heap[mk.Name] = c.Store(tbl, m, c.Add(c.Select(tbl, m), c.IntLit(1)))
+		case -2:
+			st.heap[mk.Name] = c.Store(tbl, m, c.Sub(c.Select(tbl, m), c.IntLit(1)))
+		}
 		return
 	case "osc8":
 		// OSC 8 ; params ; url ST
@@ -470,4 +538,125 @@ func sortStrings(s []string) {
 			s[j], s[j-1] = s[j-1], s[j]
 		}
 	}
+}
+
+// ---------------------------------------------------------------- structure of escape-sequence strings (C13)
+
+// seqShape is the statically decoded structure of a string that is one escape sequence (or a template of one):
+// kind 1 CSI (ESC [ lead? p;p;.. final), 2 SS3 (ESC O final), 3 ESC final, 0 anything else.
+type seqShape struct {
+	kind   int
+	lead   int       // private marker < = > ? of a CSI, 0 if none
+	params []tokItem // literal or hole (index of the %d argument)
+	final  tokItem   // literal rune or hole (index of the %c argument)
+	nargs  int
+}
+
+func parseSeqShape(s string) seqShape {
+	none := seqShape{}
+	if len(s) < 2 || s[0] != 0x1b {
+		return none
+	}
+	finalItem := func(rest string, hole *int) (tokItem, bool) {
+		if rest == "%c" {
+			it := tokItem{hole: *hole}
+			*hole++
+			return it, true
+		}
+		rs := []rune(rest)
+		if len(rs) == 1 && rs[0] >= 0x40 && rs[0] <= 0x7e {
+			return tokItem{lit: int64(rs[0]), hole: -1}, true
+		}
+		return tokItem{}, false
+	}
+	hole := 0
+	switch s[1] {
+	case '[':
+		body := s[2:]
+		sh := seqShape{kind: 1}
+		if len(body) > 0 && strings.ContainsRune("<=>?", rune(body[0])) {
+			sh.lead = int(body[0])
+			body = body[1:]
+		}
+		// parameters: everything up to the final
+		i := 0
+		for i < len(body) && (body[i] >= '0' && body[i] <= '9' || body[i] == ';' || (body[i] == '%' && i+1 < len(body) && body[i+1] == 'd')) {
+			if body[i] == '%' {
+				i += 2
+			} else {
+				i++
+			}
+		}
+		ps, fin := body[:i], body[i:]
+		if ps != "" {
+			for _, p := range strings.Split(ps, ";") {
+				switch {
+				case p == "%d":
+					sh.params = append(sh.params, tokItem{hole: hole})
+					hole++
+				case p == "":
+					sh.params = append(sh.params, tokItem{lit: 0, hole: -1})
+				default:
+					var n int64
+					if _, err := fmt.Sscanf(p, "%d", &n); err != nil || fmt.Sprint(n) != strings.TrimLeft(p, "0") && !(n == 0 && strings.Trim(p, "0") == "") {
+						return none
+					}
+					sh.params = append(sh.params, tokItem{lit: n, hole: -1})
+				}
+			}
+		}
+		f, ok := finalItem(fin, &hole)
+		if !ok {
+			return none
+		}
+		sh.final, sh.nargs = f, hole
+		return sh
+	case 'O':
+		f, ok := finalItem(s[2:], &hole)
+		if !ok {
+			return none
+		}
+		return seqShape{kind: 2, final: f, nargs: hole}
+	default:
+		f, ok := finalItem(s[1:], &hole)
+		if !ok {
+			return none
+		}
+		return seqShape{kind: 3, final: f, nargs: hole}
+	}
+}
+
+// seqFacts states the decoded structure of string term t (a literal, or the result of Sprintf on a constant
+// template with arguments args) through the uninterpreted functions sq_kind, sq_lead, sq_final, sq_n, sq_p.
+func (w *World) seqFacts(t *smt.Term, sh seqShape, args []*smt.Term) []*smt.Term {
+	c := w.C
+	c.DeclareFun("sq_kind", []smt.Sort{w.Str}, smt.Int)
+	c.DeclareFun("sq_lead", []smt.Sort{w.Str}, smt.Int)
+	c.DeclareFun("sq_final", []smt.Sort{w.Str}, smt.Int)
+	c.DeclareFun("sq_n", []smt.Sort{w.Str}, smt.Int)
+	c.DeclareFun("sq_p", []smt.Sort{w.Str, smt.Int}, smt.Int)
+	val := func(it tokItem) *smt.Term {
+		if it.hole >= 0 {
+			if it.hole < len(args) && args[it.hole] != nil {
+				return args[it.hole]
+			}
+			return nil
+		}
+		return c.IntLit(it.lit)
+	}
+	out := []*smt.Term{c.Eq(c.App("sq_kind", smt.Int, t), c.IntLit(int64(sh.kind)))}
+	if sh.kind == 0 {
+		return out
+	}
+	out = append(out, c.Eq(c.App("sq_lead", smt.Int, t), c.IntLit(int64(sh.lead))))
+	if f := val(sh.final); f != nil {
+		out = append(out, c.Eq(c.App("sq_final", smt.Int, t), f))
+	}
+	out = append(out, c.Eq(c.App("sq_n", smt.Int, t), c.IntLit(int64(len(sh.params)))))
+	for i, p := range sh.params {
+		if v := val(p); v != nil {
+			out = append(out, c.Eq(c.App("sq_p", smt.Int, t, c.IntLit(int64(i))), v))
+		}
+	}
+	return out
 }
